@@ -88,6 +88,18 @@ def encoder_trace(prog, body):
     out = max(cands, key=cands.get)
     trace = []
     g = cfg(body)
+    # initial contents `vec![a, b, ..]` of the output vector
+    first_bb = min(bb for bb, t, m, r in calls if r == out)
+    for bb in rpo(body):
+        blk = body.blocks[bb]
+        if blk["c"] or not g.dominates(bb, first_bb):
+            continue
+        for i, st in enumerate(blk["s"]):
+            if st[0] == "a" and st[2][0] == "agg" and st[2][1]["k"] == "array" and st[4] and any("vec!" in m for m in st[4]):
+                for op in st[2][2]:
+                    names, o = _names(body, op, (bb, i))
+                    tree = dep.expr_tree(body, op, 8)
+                    trace.append({"bb": bb, "loc": st[3], "width": 1, "names": sorted(names), "expr": dep.tree_str(tree), "in_loop": False, "calls": []})
     for bb, t, m, r in calls:
         if r != out:
             continue
@@ -118,6 +130,8 @@ def _int_width_of_tree(body, t):
 
 
 def _slice_width(body, tree):
+    while tree[0] == "cast":
+        tree = tree[1]
     # &X.to_be_bytes()            -> width of X
     # &X.to_be_bytes()[a..b]      -> b - a
     # Ipv4Address::to_bytes(x)    -> 4
@@ -217,10 +231,44 @@ def decoder_trace(prog, body):
                 names = st[2][1]["fields"]
                 # only the aggregate that flows into the return value
                 for fname, op in zip(names, st[2][2]):
-                    o = dep.origins(body, op, at=(bb, i))
+                    o = dep.origins(body, op, at=(bb, i), prog=prog, stop_at_call=["::next_u8", "::next_u16_be", "::next_u32_be", "::next_u48_be", "::next_u64_be", "::next_ipv4addr", "::next_n"])
                     for r in reads:
                         if any(a[0] == "call" and a[2] == r["bb"] for a in o):
                             r["fields"].add("%s.%s" % (st[2][1]["d"].rsplit("::", 1)[-1], fname))
+    # control dependence: a field whose value is chosen by a `match` on a value that was read
+    # (e.g. `let oper = match oper_num { 1 => Request, 2 => Reply, _ => return Err }`)
+    D = dep.get_defs(body)
+    for bb, blk in enumerate(body.blocks):
+        if blk["c"]:
+            continue
+        for i, st in enumerate(blk["s"]):
+            if not (st[0] == "a" and st[2][0] == "agg" and st[2][1]["k"] == "adt" and not st[2][1].get("enum") and st[2][1]["d"].startswith(("elvis_core::", "elvis::"))):
+                continue
+            for fname, op in zip(st[2][1]["fields"], st[2][2]):
+                label = "%s.%s" % (st[2][1]["d"].rsplit("::", 1)[-1], fname)
+                if any(label in r["fields"] for r in reads):
+                    continue
+                rop = dep.resolve_copy(body, op)
+                pl = F.op_place(rop)
+                if pl is None or pl[1]:
+                    continue
+                defs = [d for d in D.of(pl[0]) if d[0] == "assign"]
+                if len(defs) < 2:
+                    continue
+                dbbs = [d[1] for d in defs]
+                # nearest switch dominating every definition
+                cand = None
+                for s in g.dom_chain(dbbs[0]):
+                    if body.term(s)[0] == "switch" and all(g.dominates(s, x) for x in dbbs):
+                        cand = s
+                        break
+                if cand is None:
+                    continue
+                o = dep.origins(body, body.term(cand)[1], at=(cand, len(body.stmts(cand))), prog=prog,
+                                stop_at_call=["::next_u8", "::next_u16_be", "::next_u32_be", "::next_u48_be", "::next_u64_be", "::next_ipv4addr", "::next_n"])
+                for r in reads:
+                    if any(a[0] == "call" and a[2] == r["bb"] for a in o):
+                        r["fields"].add(label)
     for r in reads:
         r["fields"] = sorted(r["fields"])
     return reads
